@@ -301,13 +301,7 @@ class H2Protocol:
                     )
                     await self._flush()
                 await self._close_stream(event.stream_id)
-                idle = len(self.streams) == 0 or all(
-                    stream.idle for stream in self.streams.values()
-                )
-                if idle and self.context.terminated.is_set():
-                    self.connection.close_connection()
-                    await self._flush()
-                await self.send(Updated(idle=idle))
+                await self._update_idle()
             elif isinstance(event, Request):
                 await self._create_server_push(event.stream_id, event.raw_path, event.headers)
         except (
@@ -330,8 +324,13 @@ class H2Protocol:
                     )
                 else:
                     await self._create_stream(event)
-                    await self.send(Updated(idle=False))
                     stream = self.streams.get(event.stream_id)
+                    if stream is None:
+                        # Answered without a stream (a 400), the
+                        # connection is as idle as it was.
+                        await self._update_idle()
+                    else:
+                        await self.send(Updated(idle=False))
                     if getattr(stream, "closed", False) is True:
                         # The stream answered by itself (e.g. a 404
                         # for an unknown server name), nothing else
@@ -373,6 +372,13 @@ class H2Protocol:
             elif isinstance(event, h2.events.ConnectionTerminated):
                 await self.send(Closed())
         await self._flush()
+
+    async def _update_idle(self) -> None:
+        idle = len(self.streams) == 0 or all(stream.idle for stream in self.streams.values())
+        if idle and self.context.terminated.is_set():
+            self.connection.close_connection()
+            await self._flush()
+        await self.send(Updated(idle=idle))
 
     async def _flush(self) -> None:
         data = self.connection.data_to_send()
